@@ -33,12 +33,29 @@ def cases(rng, tier):
         else:
             st['_thumb32'] = True
             w = stepgen.random_thumb32(rng)
-            if rng.random() < 0.3:
+            if rng.random() < 0.15:    # Thumb SRSDB (T1) / SRSIA (T2) to every mode's stack, with and without write-back
+                w = rng.choice([0xE80DC000, 0xE98DC000]) | (rng.getrandbits(1) << 21) | rng.choice([17, 18, 19, 23, 27, 22, 31])
+                if rng.random() < 0.7:
+                    for i in range(18, 26):
+                        st['R'][i] = 0x1080
+            elif rng.random() < 0.3:
                 w = rng.choice([0xF3808000 | (rng.getrandbits(4) << 16) | (rng.getrandbits(4) << 8), 0xF3AF8000 | rng.getrandbits(11),
                                 0xF3DE8F00 | rng.getrandbits(8), 0xE8100000 | (rng.getrandbits(4) << 16) | 0xC000, 0xF7F08000 | (rng.getrandbits(4) << 16)])
             stepgen.put_instr(st, w, 32)
         out.append({'impl': {'kind': 'step_confine', 'state': stepgen.clean(st)}, 'model': None, 'spec': '[0]',
                     'label': 'user_' + kind, 'nontrivial': True})
+    # a few words of every encoding class reached by sampling, executed in User mode with the banked stack pointers mapped
+    from props import c18
+    for kind, w in c18.class_directed_words(rng, tier):
+        st = stepgen.random_state(rng, t, thumb=(kind != 'arm'), mode=0b10000, mpu=False)
+        for i in range(33):
+            if rng.random() < 0.7:
+                st['R'][i] = 0x1000 + 8 * rng.randrange(0, 24)
+        if kind == 't32':
+            st['_thumb32'] = True
+        stepgen.put_instr(st, w, 32)
+        out.append({'impl': {'kind': 'step_confine', 'state': stepgen.clean(st)}, 'model': None, 'spec': '[0]',
+                    'label': 'user_directed_' + kind, 'nontrivial': True})
     return out
 
 
